@@ -44,7 +44,7 @@ def case_strategy(draw, tier):
         rec, opts = draw(gen.hyd_case(max_n=7, tight=False, gases_only=multinet, allow_pi=not multinet, **kw))
         opts["mode"] = "hydraulics"
     deco = {"names": draw(st.booleans()), "extra_cols": draw(st.booleans()),
-            "fluid_props": draw(st.lists(st.sampled_from(["constant", "linear", "interextra", "polynominal"]), max_size=3, unique=True)),
+            "fluid_props": draw(st.lists(st.sampled_from(["constant", "linear", "interextra", "interextra_noextra", "polynominal"]), max_size=3, unique=True)),
             "pump_type": draw(st.sampled_from([None, None, "lists", "coeffs"])),
             "user_opts": draw(st.sampled_from([None, {"tol_m": 1e-6}, {"friction_model": "nikuradse", "iter": 55}])),
             "controller": draw(st.booleans()), "with_results": draw(st.booleans()), "mass_storage_default": draw(st.integers(0, 5)) == 0,
@@ -72,6 +72,9 @@ def decorate(net, rec, deco):
             net.fluid.add_property("my_linear", fl.FluidPropertyLinear(0.5, 10.0))
         elif k == "interextra":
             net.fluid.add_property("my_table", fl.FluidPropertyInterExtra(np.array([250.0, 300.0, 400.0]), np.array([1.0, 2.0, 2.5])))
+        elif k == "interextra_noextra":
+            net.fluid.add_property("my_table2", fl.FluidPropertyInterExtra(np.array([260.0, 300.0, 380.0]), np.array([3.0, 2.0, 2.5]),
+                                                                          method="interpolate"))
         elif k == "polynominal":
             net.fluid.add_property("my_poly", fl.FluidPropertyPolynominal(np.array([250.0, 300.0, 350.0, 400.0]), np.array([1.0, 2.0, 2.6, 2.9]), 2))
     js = list(net.junction.index)
